@@ -10,6 +10,7 @@ import A2lVerif.Driver.Include
 import A2lVerif.Driver.Merge
 import A2lVerif.Driver.A2ml
 import A2lVerif.Driver.Typed
+import A2lVerif.Driver.Checker
 /-! `a2lmodel`: one request per line on stdin, one canonical answer per line on stdout. -/
 open A2l
 
@@ -29,6 +30,7 @@ def dispatch (line : String) : String :=
   | "chk" :: args => Gr.handleChk false args
   | "chkset" :: args => Gr.handleChk true args
   | "chkthis" :: args => Gr.handleChkThis args
+  | "chkfull" :: args => Chk.handleFull args
   | "srt" :: args => Srt.handle args
   | "dec" :: args => Enc.handle "dec" args
   | "load" :: args => Enc.handle "load" args
